@@ -32,3 +32,7 @@ func (chain *Blockchain) VerifValidateOnFork(startHeight uint64, block *types.Bl
 	_, err = chain.validateBlock(checkState, block, prevBlock, nil)
 	return err
 }
+
+// VerifGenesisEdit, when set, shapes the genesis state right before generateGenesis commits it (the call is
+// inserted by the "edits" overlay pass of the checks that need it; it does not exist in other builds).
+var VerifGenesisEdit func(*appstate.AppState)
